@@ -16,7 +16,7 @@ KINDS = ["int", "list", "array", "boolarray", "rlmask", "cmpmask", "slice", "win
 FLOOR_TAGS = ["k:" + k for k in KINDS] + ["step:+1", "step:+k", "step:-1", "step:-k", "bounds:oob", "bounds:in", "result:empty", "mask:allfalse", "mask:alltrue", "int:negative",
                                           "kind:b", "kind:i", "kind:u", "kind:f"]
 FLOOR_MONITORS = ["c15:compare", "c15:canonical", "inv:rla"]
-N_RANDOM = {"quick": 8000, "thorough": 300000}
+N_RANDOM = {"quick": 24000, "thorough": 300000}
 
 
 def setup(lib):
